@@ -1,4 +1,5 @@
 import BHS.Props.C08
+import BHS.Props.SqlShape
 open BHS.Props.C08
 #print axioms walk_from
 #print axioms C08_walk
@@ -9,3 +10,4 @@ open BHS.Props.C08
 #print axioms C08_bad_key
 #print axioms C08_zero
 #print axioms C08_interleaved
+#print axioms BHS.Props.SqlShape.page_statements
